@@ -178,6 +178,12 @@ var (
 		types.NewField(token.NoPos, cPkg, "x", ctFp2, false),
 		types.NewField(token.NoPos, cPkg, "y", ctFp2, false),
 		types.NewField(token.NoPos, cPkg, "z", ctFp2, false)}, nil))
+	ctE1aff = cNamed("E1affine", types.NewStruct([]*types.Var{
+		types.NewField(token.NoPos, cPkg, "x", ctFp, false),
+		types.NewField(token.NoPos, cPkg, "y", ctFp, false)}, nil))
+	ctE2aff = cNamed("E2affine", types.NewStruct([]*types.Var{
+		types.NewField(token.NoPos, cPkg, "x", ctFp2, false),
+		types.NewField(token.NoPos, cPkg, "y", ctFp2, false)}, nil))
 	ctError = cNamed("ERROR", types.Typ[types.Uint32])
 	ctVoid  = types.NewTuple()
 )
@@ -191,6 +197,8 @@ var cBaseTypes = map[string]types.Type{
 	"ERROR": ctError, "Fr": ctFr, "Fp": ctFp, "Fp2": ctFp2, "Fp12": ctFp12, "E1": ctE1, "E2": ctE2,
 	"void": ctVoid, "pow256": types.NewArray(types.Typ[types.Uint8], 32),
 	"vec384": ctFp, "vec256": ctFr, "vec384x": ctFp2,
+	// BLST's own names of the point types (the repository's E1/E2 are these structs)
+	"POINTonE1": ctE1, "POINTonE2": ctE2, "POINTonE1_affine": ctE1aff, "POINTonE2_affine": ctE2aff,
 }
 
 var cUserStructs = map[string]types.Type{}
@@ -425,6 +433,7 @@ func (g *CGen) run() {
 		}
 		g.assume(s)
 	}
+	g.unfoldChunkDefinitions()
 	g.assignAll = g.spec.AssignsAll || !g.spec.HasAssigns
 	for _, a := range g.spec.Assigns {
 		r, err := env.EvalRegion(a)
